@@ -81,7 +81,7 @@ Proof.
       * intros [H | [v [[<-|H1] H2]]]; auto. destruct H2 as [<-|[]]. auto. right. exists v. auto.
 Qed.
 
-Definition no_values (o : op) : Prop := match o with ODelete _ | OClear => True | _ => False end.
+Definition no_values (o : op) : Prop := match o with ODelete _ | OClear | OAppendNone => True | _ => False end.
 
 Section BtStep.
 Variable os : list Z.
@@ -132,7 +132,9 @@ Proof.
       + intros TK ow t Hin L. apply In_nth_error in Hin. destruct Hin as [i Ho].
         destruct (nth_error_ex vs i) as [v Hv]; [rewrite Lv; apply nth_error_Some; congruence|].
         apply (K i ow v Ho Hv t) in L. rewrite (T2 U). apply X2. right. exists v. split; [eapply nth_error_In; eauto | exact L]. }
-  destruct o as [vs|vs|ts|]; cbn [assoc_step do_append] in s'.
+  destruct o as [vs|vs|ts| |]; cbn [assoc_step do_append] in s'.
+  5:{ split; [constructor; assumption|]. split; [intros i ow Ho t; reflexivity|].
+      split; [intros _; split; [intros x Hx; exact Hx | intro TK; exact TK] | intros _ TK; exact TK]. }
   - destruct OK as [Lv F1]. destruct (REPL vs Lv F1) as [W' [K' S']]. fold s' in W', K', S'.
     split; [exact W'|]. split; [|split; [exact S' | intros []]].
     intros i ow Ho t. rewrite links_bt by apply (wb_nd _ _ W').
